@@ -277,6 +277,26 @@ def oracleC01 (op : String) (a : Nat → Option Str) (impl mdl : String) : Strin
         else if !S.LetterAligned w v && impl == mdl then ("known:F3", nt)
         else (s!"fail:rule-verdicts={exp}", nt)
     | _, _ => ("na", "")
+  | "dewey.match" | "pattern.match" =>
+    -- "a pattern bound against a package's version": for a brace-free comparison pattern the
+    -- answer is  base = PKGBASE  and every bound holds UNDER THE RULE for the text after the
+    -- name's last '-'
+    match a 0, a 1 with
+    | some p, some n =>
+      if hasAny p "{}" || !hasAny p "<>" then ("na", "not-a-comparison-pattern")
+      else
+        match S.parsePattern p, S.splitLastDash n with
+        | .ok (base, bs), some (pre, ver) =>
+          if pre != base then ("na", "other-base")
+          else if !(S.InDomain ver && bs.all fun (_, bd) => S.InDomain bd) then ("na", "out-of-domain")
+          else
+            let exp := b (bs.all fun (o, bd) => S.verdict ver o bd)
+            let nt := if bs.length == 2 then "nt" else ""
+            if impl == exp then ("ok", nt)
+            else if !(bs.all fun (_, bd) => S.LetterAligned ver bd) && impl == mdl then ("known:F3", nt)
+            else (s!"fail:rule-verdict-of-the-bounds={exp}", nt)
+        | _, _ => ("na", "")
+    | _, _ => ("na", "")
   | _ => ("na", "")
 
 def nthBits (s : String) (k : Nat) : List Char := (s.toList.drop (4 * k)).take 4
